@@ -205,7 +205,7 @@ func prepareRT(scratch string) *rtBuild {
 	sb.WriteString(")\n\nfunc init() {\n")
 	for _, r := range reps {
 		m := b.Metas[r.Name]
-		fmt.Fprintf(&sb, "\tharness.Register(%q, %q, %q, %s, %d, %v, map[int]string{", r.Name, r.ImportPath, m.Class, strconv.Quote(specs[r.Name].Spec), r.PkgID, r.UsesSync)
+		fmt.Fprintf(&sb, "\tharness.Register(%q, %q, %q, %s, %d, %v, %v, map[int]string{", r.Name, r.ImportPath, m.Class, strconv.Quote(specs[r.Name].Spec), r.PkgID, r.UsesSync, len(r.SyncOther) > 0)
 		for _, y := range r.Yields {
 			fmt.Fprintf(&sb, "%d:%q,", y.ID, y.Func)
 		}
